@@ -50,12 +50,50 @@ def sharing_doc(rng):
         gid = rng.choice(g.grad_ids)
         form = rng.choice([" url(#%s)", "url(#%s) ", "url('#%s')", 'url( #%s )', "url(#%s) red", "url(#%s) none", "DOT"])
         if form == "DOT":
-            new = gid + rng.choice([".1", ".a", ":b"])
+            new = gid + rng.choice([".1", ".a", ":b", "/sky", "+b", "~1", "@2"])
             src = src.replace('"%s"' % gid, '"%s"' % new).replace("#%s)" % gid, "#%s)" % new).replace('"#%s"' % gid, '"#%s"' % new)
         else:
             val = (form % gid).replace('"', "&quot;")
             src = src.replace("</svg>", '<rect x="3" y="4" width="12" height="9" fill="%s"/></svg>' % val)
+    elif k < 0.86:
+        # a paint server the converter cannot keep: a pattern (known finding: the reference is left dangling)
+        src = src.replace("</svg>", PATTERN_TAIL)
+    elif k < 0.92:
+        # a gradient written inside a symbol without id (known finding: dropped with the symbol, the reference is left dangling)
+        src = src.replace("</svg>", SYMBOL_TAIL)
     return src
+
+
+PATTERN_TAIL = ('<defs><pattern id="pt" width="10" height="10" patternUnits="userSpaceOnUse"><rect width="5" height="5"/></pattern></defs>'
+                '<rect x="2" y="3" width="30" height="20" fill="url(#pt)"/></svg>')
+SYMBOL_TAIL = ('<symbol><linearGradient id="sg"><stop offset="0" stop-color="red"/><stop offset="1" stop-color="blue"/></linearGradient></symbol>'
+               '<rect x="2" y="3" width="30" height="20" fill="url(#sg)"/></svg>')
+
+
+def finding_tag(src, why):
+    """the two listed ways a paint reference is left dangling, recognised by what the SOURCE has under the dangling id"""
+    m = re.match(r"dangling reference (fill|stroke)='url\(#([^)]+)\)'", why or "")
+    if not m:
+        return None
+    try:
+        root = etree.fromstring(src.encode("utf-8"), etree.XMLParser(recover=True, resolve_entities=False))
+    except Exception:
+        return None
+    if root is None:
+        return None
+    targets = [el for el in root.iter() if isinstance(el.tag, str) and el.attrib.get("id") == m.group(2)]
+    if len(targets) != 1:
+        return None
+    t = targets[0]
+    if etree.QName(t).localname == "pattern":
+        return "paint-reference-to-pattern"
+    if etree.QName(t).localname.endswith("Gradient"):
+        p = t.getparent()
+        while p is not None:
+            if etree.QName(p).localname == "symbol" and "id" not in p.attrib:
+                return "gradient-inside-anonymous-symbol"
+            p = p.getparent()
+    return None
 
 
 def gen_case(rng):
@@ -140,7 +178,7 @@ def search(ctx, disagreements):
         why = refs_check(r.out_text)
         ctx.count("refs-checked")
         if why:
-            tag = "orphan-gradient-after-pruning" if why.startswith("orphaned gradient") else None
+            tag = "orphan-gradient-after-pruning" if why.startswith("orphaned gradient") else finding_tag(c["src"], why)
             found.append({"kind": "refs", "input": c, "tag": tag, "detail": why, "output": r.out_text[:1500]})
     ctx.stats["evaluations"] = ctx.stats.get("evaluations", 0) + len(live)
     return found
@@ -151,6 +189,13 @@ def classify(v, findings):
         if e.get("status") == "finding" and v.get("tag") and v.get("tag") == e.get("tag"):
             return e["id"]
     return None
+
+
+def replay_finding(ctx, e):
+    c = e["witness"]
+    r = pipeline.Run(c["src"], ops_of(c))
+    why = refs_check(r.out_text) if r.outcome == "ok" else None
+    return bool(why) and finding_tag(c["src"], why) == e.get("tag")
 
 
 def replay(ctx, payload):
